@@ -548,6 +548,26 @@ def shrink(case):
             yield ["parse", s[:i] + s[i + 1:]]
 
 
+# ---------------------------------------------------------------- the source-level tie (tools/py2coq_c19.py)
+
+
+def extra_obligations(tier):
+    """build_bytes_from_sse is translated to Gallina from the source in BAIZE_REPO as it is now (x.encode(charset) is an
+    argument `encode` of the generated function, the event a dict of str / int values, re.split of the literal pattern a
+    scan of C19/PyLib.v), and coqc re-checks C19/Translated.v against the fresh definition: for every event and every
+    encode, what the translated function returns is the LF-join of encode(charset) of the model's field and data lines and
+    the two empty items; it is encode(charset) of M.build_bytes_from_sse for a codec that distributes over concatenation
+    and keeps LF; it is M.build_bytes_from_sse itself over code points.  Second obligation: C19/PyLib.v evaluated inside
+    coqc against this interpreter's re.split, dict, f-string, map, chain and bytes.join.  A source the translator
+    refuses is not applicable (None), no alarm."""
+    import importlib.util
+    import os
+    spec = importlib.util.spec_from_file_location("py2coq_c19", os.path.join(core.VERIF, "tools", "py2coq_c19.py"))
+    mod = importlib.util.module_from_spec(spec)
+    spec.loader.exec_module(mod)
+    return mod.obligations(core.REPO, core.VERIF)
+
+
 if __name__ == "__main__":
     import sys
     core.main(sys.modules[__name__])
